@@ -313,7 +313,8 @@ class _Component:
                 )
             else:
                 pval = _get_mand(config[cls._cparams["name"]], key)
-            if type(pval) not in cls._cparams["params"][key]["typ"]:
+            ptype = dict if isinstance(pval, dict) else type(pval)
+            if ptype not in cls._cparams["params"][key]["typ"]:
                 raise ValueError("Parameter {} is not of the correct type".format(key))
             fparams[key] = pval
 
